@@ -206,10 +206,9 @@ section denote
 variable {R : Type}
 
 /-- `n choose k` -/
-def choose : Nat → Nat → Nat
-  | _, 0 => 1
-  | 0, _ + 1 => 0
-  | n + 1, k + 1 => choose n k + choose n (k + 1)
+def choose (n k : Nat) : Nat :=
+  -- multiplicative formula: after step i the accumulator is C(n, i+1) (each division is exact)
+  (List.range k).foldl (fun acc i => acc * (n - i) / (i + 1)) 1
 
 def powR (A : AOps R) (x : R) : Nat → R
   | 0 => A.one
